@@ -68,11 +68,17 @@ def make_step_job(noise, B, d, m):
         y_aug = XT(y_aug.a)
         gm = GradMode(False)
         gm.__pyvc_enter__(cx)
+        del bm.queries[:]
         try:
             out_aug, (ff, gg, zz) = E.call(E.get_attr(adj, 'step', cx, 0),
                                            [-t1, -t0, y_aug, (AC.detached(f1), AC.detached(g1), AC.detached(z1))], {}, cx, 0)
         finally:
             gm.__pyvc_exit__(cx)
+        # the adjoint step over [-t1, -t0] uses the reversed Brownian motion over exactly that interval: one base query on (t0, t1)
+        qs = bm.queries
+        okq = len(qs) == 1 and (Poly.lift(qs[0][0]) - t0).is_zero() and (Poly.lift(qs[0][1]) - t1).is_zero()
+        rep.add(f'{tag}/frame.one-brownian-query-on-the-step-interval', 'frame', 'discharged' if okq else 'refuted', 'poly-normal-form',
+                model=None if okq else {'base queries': [f'({q[0]!r}, {q[1]!r})' for q in qs][:3]})
         f2s = E.module('torchsde._core.misc').globals['flat_to_shape']
         parts = E.call(f2s, [out_aug.m_squeeze(0), shapes], {}, cx, 0)
         r_y, r_ay, r_af, r_ag, r_az = parts[:5]
